@@ -97,6 +97,9 @@ def run(tier, seed):
     before = len(rep.violations)
     vlib.linear_check(rep, "Tr_Control.tla", "Tr_Control.cfg", "Tr_Control_diag.cfg", files, wd, context_marker='{"e": "Reset"', meta_line=False,
                       keyfn=lambda line, names: "monitor:" + ";".join(names))
+    for v in rep.violations[before:]:
+        if not [n for n in v[0].split(":", 1)[1].split(";") if n]:
+            raise vlib.ToolFailure("trace spec has no enabled step for a recorded event (spec/hook mismatch): " + v[1][:300])
     drift = [v for v in rep.violations[before:] if all(n.startswith("Design") for n in v[0].split(":", 1)[1].split(";") if n)]
     rep.violations[before:] = [v for v in rep.violations[before:] if v not in drift]
     if drift:
